@@ -117,8 +117,10 @@ class BestBatchSampler(BaseSampler):
             batch_size,
             size=batch_size,
         )
-        sampled_points: NDArray[np.float64] = np.copy(
+        # a private float64 copy: shifts added to an integer-typed history would be truncated
+        sampled_points: NDArray[np.float64] = np.array(
             candidate_points[candidate_point_indexes],
+            dtype=np.float64,
         )
 
         beta_binom_rv = betabinom(n=search_space.dims - 1, a=self.a, b=self.b)
